@@ -62,7 +62,7 @@ func (t *gotr) fail(n ast.Node, why string) {
 
 var gtTypes = map[string]string{
 	"int": "Int", "uint": "Nat", "bool": "Bool", "error": "Option GoErr", "*big.Int": "Int", "Op": "GOp",
-	"Program": "List GOp", "*Program": "List GOp", "Chain": "List Int", "[]*big.Int": "List Int", "[]int": "List Int", "[]Op": "List GOp", "[][]Op": "List (List GOp)", "map[uint]uint": "(Nat → Nat)", "Sum": "List GTerm", "Term": "GTerm", "FixedWindow": "Nat",
+	"Program": "List GOp", "*Program": "List GOp", "Chain": "List Int", "[]*big.Int": "List Int", "[]int": "List Int", "[]Op": "List GOp", "[][]Op": "List (List GOp)", "map[uint]uint": "(Nat → Nat)", "Sum": "List GTerm", "Term": "GTerm", "FixedWindow": "Nat", "?*big.Int": "Option Int",
 }
 
 var gtElem = map[string]string{"Program": "Op", "*Program": "Op", "Chain": "*big.Int", "[]*big.Int": "*big.Int", "[]int": "int", "[]Op": "Op", "[][]Op": "[]Op", "Sum": "Term"}
@@ -162,6 +162,10 @@ func (t *gotr) expr(e ast.Expr) (string, string) {
 			return "goNil", "error"
 		}
 		if ty, ok := t.lookup(v.Name); ok {
+			if ty == "?*big.Int" {
+				// a pointer that may be nil (`var x *big.Int`): reading through it panics when it is nil
+				return "(← " + v.Name + ")", "*big.Int"
+			}
 			return v.Name, ty
 		}
 	case *ast.BasicLit:
@@ -224,6 +228,16 @@ func (t *gotr) expr(e ast.Expr) (string, string) {
 			}
 		}
 	case *ast.BinaryExpr:
+		if v.Op == token.EQL || v.Op == token.NEQ {
+			if id, ok := v.X.(*ast.Ident); ok && Src(t.fset, v.Y) == "nil" {
+				if ty, ok := t.lookup(id.Name); ok && ty == "?*big.Int" {
+					if v.Op == token.EQL {
+						return id.Name + ".isNone", "bool"
+					}
+					return id.Name + ".isSome", "bool"
+				}
+			}
+		}
 		x, xt := t.expr(v.X)
 		y, yt := t.expr(v.Y)
 		switch v.Op {
@@ -636,7 +650,7 @@ func (t *gotr) assigned(list []ast.Stmt) []string {
 			if c, ok := s.X.(*ast.CallExpr); ok {
 				if sel, ok := c.Fun.(*ast.SelectorExpr); ok {
 					if id, ok := sel.X.(*ast.Ident); ok {
-						if ty, ok := t.lookup(id.Name); ok && (ty == "*big.Int" || strings.HasPrefix(ty, "*")) {
+						if ty, ok := t.lookup(id.Name); ok && (ty == "*big.Int" || ty == "?*big.Int" || strings.HasPrefix(ty, "*")) {
 							set[id.Name] = true
 						}
 						if ty, ok := t.lookup(id.Name); ok && (sel.Sel.Name == "AppendClone" && ty == "Chain" || sel.Sel.Name == "SortByExponent" && ty == "Sum") {
@@ -732,7 +746,25 @@ func (t *gotr) stmt(s ast.Stmt, ind string) string {
 			return ind + "return (Sum.inl " + t.retTuple(s, vals) + ")\n"
 		}
 		return ind + "return " + t.retTuple(s, vals) + "\n"
+	case *ast.DeclStmt:
+		// var x *big.Int: a nil pointer
+		if gd, ok := v.Decl.(*ast.GenDecl); ok && gd.Tok == token.VAR && len(gd.Specs) == 1 {
+			if vs, ok := gd.Specs[0].(*ast.ValueSpec); ok && len(vs.Names) == 1 && len(vs.Values) == 0 && vs.Type != nil && Src(t.fset, vs.Type) == "*big.Int" {
+				t.define(s, vs.Names[0].Name, "?*big.Int")
+				return ind + "let mut " + vs.Names[0].Name + " : Option Int := none\n"
+			}
+		}
 	case *ast.AssignStmt:
+		if v.Tok == token.ASSIGN && len(v.Lhs) == 1 && len(v.Rhs) == 1 {
+			if id, ok := v.Lhs[0].(*ast.Ident); ok {
+				if lt, ok := t.lookup(id.Name); ok && lt == "?*big.Int" {
+					e, ety := t.expr(v.Rhs[0])
+					if ety == "*big.Int" {
+						return ind + id.Name + " := some " + e + "\n"
+					}
+				}
+			}
+		}
 		// *p = append(*p, E) / x = append(x, E)
 		if len(v.Lhs) == 1 && len(v.Rhs) == 1 {
 			if c, ok := v.Rhs[0].(*ast.CallExpr); ok && v.Tok == token.ASSIGN {
@@ -937,6 +969,11 @@ func (t *gotr) stmt(s ast.Stmt, ind string) string {
 					if ty, ok := t.lookup(id.Name); ok && ty == "*big.Int" {
 						a := t.args(c, gtBigArgs(sel.Sel.Name))
 						return ind + id.Name + " := (b" + sel.Sel.Name + " " + strings.Join(a, " ") + ")\n"
+					}
+					if ty, ok := t.lookup(id.Name); ok && ty == "?*big.Int" {
+						// the method call itself dereferences the receiver: nil panics
+						a := t.args(c, gtBigArgs(sel.Sel.Name))
+						return ind + "let _ ← " + id.Name + "\n" + ind + id.Name + " := some (b" + sel.Sel.Name + " " + strings.Join(a, " ") + ")\n"
 					}
 				}
 			}
@@ -1236,6 +1273,14 @@ func (t *gotr) loop(s ast.Stmt, rest []ast.Stmt, ind string, tail string) string
 								return
 							}
 						}
+					}
+				}
+				// bigint.IsNonZero(b) with b shrinking (shifted right): fuel bitlen(b) + 1
+				if c, ok := e.(*ast.CallExpr); ok && Src(t.fset, c.Fun) == "bigint.IsNonZero" && len(c.Args) == 1 {
+					x, xt := t.expr(c.Args[0])
+					if xt == "*big.Int" && !strings.Contains(x, "←") {
+						fuel = append(fuel, "((bBitLen "+x+") + 1)")
+						return
 					}
 				}
 				// h > 0 with h an int local that the body decreases: fuel h
